@@ -52,7 +52,7 @@ def consistency(directory):
 
 def lib_check(cache):
     with warnings.catch_warnings():
-        warnings.simplefilter('ignore')
+        warnings.simplefilter('always')      # check() collects through catch_warnings(record=True); 'ignore' would blind it
         ws = cache.check()
     return [str(w.message) for w in ws if not issubclass(w.category, diskcache.EmptyDirWarning)]
 
